@@ -1,6 +1,6 @@
 ------------------------------ MODULE ScanSelectGen ------------------------------
 (* Emits the domain of ScanSelectDomain as cases for harness/scan_select.cpp (batches of cases per ndjson line) and      *)
-(* checks the lemmas about P on all enumerated worlds (pure TLC, no code involved).                                      *)
+(* checks that P is not vacuous on concrete instances (pure TLC, no code involved).                                      *)
 EXTENDS ScanSelectDomain, TLC, Json, IOUtils
 
 Thorough == IOEnv.VF_TIER = "thorough"
@@ -14,11 +14,7 @@ Batches == [b \in 1..((Len(All) + B - 1) \div B) |->
               [cases |-> [k \in 1..(IF b * B <= Len(All) THEN B ELSE Len(All) - (b - 1) * B) |-> All[(b - 1) * B + k]]]]
 
 (* ---- lemmas about P ---- *)
-ASSUME LemmaSpecificWins(W)
-ASSUME LemmaLongerIdentWins(W)
-ASSUME LemmaTotal(W) /\ LemmaMustAdmitted(W)
-ASSUME LemmaOrderFree(W)
-ASSUME LemmaIrrelevant(W)
+(* the lemmas of ScanSelect (LemmasOn) are checked on every world by ScanSelectJudge, in parallel with the records *)
 (* the keys of the worlds are pairwise distinct (the judge compares sets of keys) *)
 ASSUME Cardinality({SelKey(w) : w \in W}) = Cardinality(W)
 
@@ -55,5 +51,7 @@ PmDecided == {c \in PmCases : ParseMsg(c.arg, c.oms = 1).kind # "open"}
 ASSUME Cardinality(PmDecided) * 10 >= Cardinality(PmCases) * 5
 
 ASSUME ndJsonSerialize(IOEnv.VF_OUT, Batches)
-ASSUME PrintT(<<"VF", "GEN", Len(SelCases), Len(FnCases), Len(PmSeq), Cardinality(Decided), Cardinality(PmDecided)>> \o FamilySizes(Thorough))
+ASSUME PrintT(<<"VF", "GEN", Len(SelCases), Len(FnCases), Len(PmSeq), Cardinality(Decided), Cardinality(PmDecided)>>)
+ASSUME PrintT(<<"VF", "FAM1", SubSeq(FamilySizes(Thorough), 1, 5)>>)
+ASSUME PrintT(<<"VF", "FAM2", SubSeq(FamilySizes(Thorough), 6, 10)>>)
 =============================================================================
